@@ -156,3 +156,23 @@ lemma(
     setup=["mask = 1 << bit", "data = mask if value else 0", "new = spec.pccc.apply_masked_write(old, mask, data)"],
     ensures=["((new >> bit) & 1) == (1 if value else 0)", "(new & ~mask & 0xFFFF) == (old & ~mask & 0xFFFF)", "0 <= new and new <= 65535"],
     props=["C18"])
+
+# frame condition: the address fields of a request are those of THIS address, whatever was accessed before
+# (two accesses to the same I/O slot that differ only in the word)
+for _op in ("read", "write"):
+    _second = "d._read_tag('B')" if _op == "read" else "d._write_tag('B', 5)"
+    _first = "d._read_tag('A')" if _op == "read" else "d._write_tag('A', 7)"
+    contract(
+        id=f"slc.{_op}.sequence", func=f"pycomm3.slc_driver.SLCDriver._{_op}_tag", call=_second,
+        bind={"ft": ["'I'", "'O'", "'N'"]},
+        params=dict(SC, fnum=P.numeral(0, 255), elem=P.numeral(0, 255), w1=P.numeral(0, 255), w2=P.numeral(0, 255), head=P.bytes(len=46)),
+        requires=["spec.encap.le(head, 8, 4) == 0"],
+        setup=["mk = lambda name, w: {'file_type': ft, 'file_number': fnum, 'element_number': elem, 'sub_element': None, 'address_field': 2, "
+               "'element_count': 1, 'tag': name, 'pos_number': w}", "table = {'A': mk('A', w1), 'B': mk('B', w2)}",
+               "pycomm3.slc_driver.parse_tag = lambda tag: dict(table[tag])", "d = pycomm3.slc_driver.SLCDriver('10.0.0.1')", "d._session = session",
+               "d._target_cid = cid", "d._target_is_connected = True", "d._connection_opened = True",
+               "reply = spec.pccc.pccc_reply(head, 0, b'\\x01\\x00')", "t = spec.env.Transport([reply, reply])", "d._sock = t",
+               f"first = {_first}", "sent = lambda: spec.encap.try_parse_frame(t.sent[1])[3][3]"],
+        ensures=["len(t.sent) == 2", "result.error is None",
+                 "sent()[18:23] == spec.pccc.read_fields(ft, int(fnum), int(elem), int(w2), 1)"],
+        props=["C18"], max_paths=20000)
